@@ -205,7 +205,9 @@ class BaseLoader(ABC):
                 # urllib.request.URLError has a particularly hostile str(), so
                 # we generally don't want to pass it along to the user.
                 self._raise_open_error(url, e.reason)  # pragma: no cover
-            except OSError as e:
+            except (OSError, ValueError) as e:
+                # urlopen reports some unusable URLs (an embedded null
+                # byte, a malformed data: URL) as ValueError
                 self._raise_open_error(url, str(e))
 
             try:
